@@ -829,10 +829,11 @@ wait:
 					cands = append(cands, y)
 				}
 			}
-			if len(cands) != 1 {
+			sort.Slice(cands, func(i, j int) bool { return cands[i].id < cands[j].id })
+			if len(cands) != 1 && !(silent && len(cands) > 1) {
 				w.abort("cannot tell which of %d workers at height %d advanced", len(cands), p.h)
 			}
-			actual = cands[0]
+			actual = cands[0] // after a silent exit the history ends anyway; any of the candidates names the defect
 		}
 	}
 	if ambiguous {
